@@ -276,11 +276,12 @@ func runMut(sc MutScenario) world.Verdict {
 }
 
 func TestC19Mutation(t *testing.T) {
-	world.Run(t, "C19", "file-mutation", world.Scale(60, 150), genMut, runMut)
+	world.Run(t, "C19", "file-mutation", world.Scale(80, 100), genMut, runMut)
 }
 
-// exhaustiveList is every single-byte corruption of every position (8 bit flips, '0', '"', the
-// next base64 character, '=') and every truncation length of the base files.
+// exhaustiveList is every single-byte corruption of every position (all 8 bit flips - one for the
+// imported file -, '0', '"', the next base64 character, '=') and every truncation length of the
+// base files.
 func exhaustiveList(t *testing.T) []MutScenario {
 	var out []MutScenario
 	for _, bf := range []struct {
@@ -292,8 +293,12 @@ func exhaustiveList(t *testing.T) []MutScenario {
 		if v != nil {
 			t.Fatalf("cannot make the %s base file: %s", bf.source, v.Violation)
 		}
+		bits := 8
+		if bf.source == srcImport {
+			bits = 1 // same format as the created file: one flip per byte keeps the Argon2id bill bounded
+		}
 		for pos := 0; pos < len(base.bytes); pos++ {
-			for bit := 0; bit < 8; bit++ {
+			for bit := 0; bit < bits; bit++ {
 				out = append(out, MutScenario{Source: bf.source, PassIdx: bf.passIdx, Kind: kFlip, Arg: bit, Region: -1, Pos: pos})
 			}
 			for _, k := range []string{kZero, kQuote, kPad} {
@@ -315,16 +320,53 @@ func TestC19MutationExhaustive(t *testing.T) {
 		t.Skip("thorough tier only")
 	}
 	all := exhaustiveList(t)
-	// world.Enumerate shards by index but accounts the whole list as requested in every shard;
-	// hand it this shard's share as a one-shard run so that requested == evaluated.
-	sh, n := world.Shards()
-	var mine []MutScenario
-	for i, sc := range all {
-		if i%n == sh {
-			mine = append(mine, sc)
+	world.Enumerate(t, "C19", "file-mutation-exhaustive", all, true, runMut) // sharded by index
+}
+
+// directedList addresses every discovered area of a base file relatively (so added fields are
+// covered): both ends of every key name and payload with the corruptions that keep the JSON and
+// the base64 well-formed (the ones that reach the cryptography), structural bytes, and a few
+// truncation lengths. It runs in the quick tier whatever the seed.
+func directedList(t *testing.T) []MutScenario {
+	var out []MutScenario
+	for _, bf := range []struct {
+		source  string
+		passIdx int
+	}{{srcCreate, 1}, {srcLegacy, 0}} {
+		sc := MutScenario{Source: bf.source, PassIdx: bf.passIdx}
+		base, v := cachedBase(bf.source, sc.pass())
+		if v != nil {
+			t.Fatalf("cannot make the %s base file: %s", bf.source, v.Violation)
+		}
+		regs := layout(base.bytes)
+		add := func(kind string, arg, region, offset int) {
+			out = append(out, MutScenario{Source: bf.source, PassIdx: bf.passIdx, Kind: kind, Arg: arg, Region: region, Offset: offset})
+		}
+		for i, r := range regs {
+			if r.IsName {
+				add(kFlip, 0, i, 0)
+				add(kZero, 0, i, -1)
+				continue
+			}
+			add(kPad, 0, i, -1)
+			add(kPad, 0, i, -2)
+			add(kB64, 1, i, 0)
+			add(kB64, 1, i, -1)
+			add(kFlip, 0, i, (r.End-r.Start)/2)
+		}
+		add(kQuote, 0, len(regs), 0)
+		add(kZero, 0, len(regs), 1)
+		for _, l := range []int{0, 1, len(base.bytes) / 2, len(base.bytes) - 1} {
+			out = append(out, MutScenario{Source: bf.source, PassIdx: bf.passIdx, Kind: kTrunc, Region: -1, Pos: l})
 		}
 	}
-	t.Setenv("VERIF_SHARD", "0")
-	t.Setenv("VERIF_SHARDS", "1")
-	world.Enumerate(t, "C19", "file-mutation-exhaustive", mine, true, runMut)
+	return out
+}
+
+// TestC19MutationDirected (quick tier; the thorough tier enumerates everything instead).
+func TestC19MutationDirected(t *testing.T) {
+	if world.Thorough() {
+		t.Skip("quick tier only: the thorough tier runs the exhaustive enumeration")
+	}
+	world.Enumerate(t, "C19", "file-mutation-directed", directedList(t), false, runMut)
 }
